@@ -29,12 +29,209 @@ Proof.
     + repeat split; intros; discriminate.
 Qed.
 
-Lemma write_accepted_within_all : forall L s v s' r, step L s (WriteA v) = (s', ROk r) ->
+(* ---------------------------------------------------------------------------------------------------------------
+   the check functions found by the write wrapper, for every class layout
+   --------------------------------------------------------------------------------------------------------------- *)
+Local Close Scope Z_scope.
+
+(* layouts covered: the module class derives from Module (so its __init_subclass__ runs), a is one of its accessibles, and a
+   class in which the programmer wrote a check_a WITHOUT a call of checkLimits does not define a limit parameter itself
+   (a check_a written next to the limit parameter replaces the generated one by design: the programmer then has to call
+   checkLimits himself, see the docstring of Module.checkLimits) *)
+Definition cls_ok (c : cls) : bool := negb (Nat.eqb (c_user c) 1) || negb (c_min c || c_max c || c_lim c).
+Definition layout_wf (L : layout) : Prop :=
+  (exists c r, l_classes L = c :: r /\ c_acc c = true) /\ existsb c_param (l_classes L) = true /\
+  forallb cls_ok (l_classes L) = true.
+
+Definition has_limit (L : layout) : bool := l_lim L || l_min L || l_max L.
+
+(* a check function that tests the limits *)
+Definition calls_check_limits (c : check) : bool :=
+  match c with CkAuto => true | CkUser 0 => false | CkUser 1 => false | CkUser _ => true end.
+
+Lemma set_nth_length : forall A (l : list A) i v, length (set_nth i v l) = length l.
+Proof. induction l; destruct i; simpl; intros; auto. Qed.
+
+Lemma nth_set_nth_same : forall (l : list bool) i v, i < length l -> nth i (set_nth i v l) false = v.
+Proof. induction l; destruct i; simpl; intros; try lia; auto. apply IHl. lia. Qed.
+
+Lemma nth_set_nth_mono : forall (l : list bool) i j, nth j l false = true -> nth j (set_nth i true l) false = true.
+Proof. induction l; destruct i, j; simpl; intros; auto. Qed.
+
+Lemma last_def_spec : forall pf l k j, last_def pf l k = Some j ->
+  k <= j < k + length l /\ defines pf (nth (j - k) l cls0) = true.
+Proof.
+  induction l as [|c r IH]; simpl; intros k j H; [discriminate|].
+  destruct (last_def pf r (S k)) as [j'|] eqn:E.
+  - injection H as <-. destruct (IH _ _ E) as (H1 & H2). split; [lia|].
+    replace (j' - k) with (S (j' - S k)) by lia. exact H2.
+  - destruct (defines pf c) eqn:Ed; [|discriminate]. injection H as <-. split; [lia|].
+    rewrite Nat.sub_diag. exact Ed.
+Qed.
+
+Lemma last_def_exists : forall pf l k, existsb (defines pf) l = true -> exists j, last_def pf l k = Some j.
+Proof.
+  induction l as [|c r IH]; simpl; intros k H; [discriminate|].
+  destruct (last_def pf r (S k)) as [j'|] eqn:E; [eauto|].
+  destruct (defines pf c) eqn:Ed; [eauto|]. simpl in H. destruct (IH (S k) H) as (j & Hj). congruence.
+Qed.
+
+Lemma treat_postfix_length : forall cs k inst pf, length (treat_postfix cs k inst pf) = length inst.
+Proof.
+  intros. unfold treat_postfix. destruct (last_def pf (skipn k cs) k); auto.
+  destruct (in_dict cs inst n); auto using set_nth_length.
+Qed.
+
+Lemma treat_postfix_mono : forall cs k inst pf j, in_dict cs inst j = true -> in_dict cs (treat_postfix cs k inst pf) j = true.
+Proof.
+  intros cs k inst pf j H. unfold treat_postfix. destruct (last_def pf (skipn k cs) k) as [j'|]; auto.
+  destruct (in_dict cs inst j'); auto. unfold in_dict in *. apply orb_true_iff in H. apply orb_true_iff.
+  destruct H as [H|H]; [left; exact H|right; now apply nth_set_nth_mono].
+Qed.
+
+(* after the body of the postfix loop the class that defines the limit first has a check_a in its __dict__ *)
+Lemma treat_postfix_installs : forall cs inst pf j, length inst = length cs ->
+  last_def pf cs 0 = Some j -> in_dict cs (treat_postfix cs 0 inst pf) j = true.
+Proof.
+  intros cs inst pf j Hl H. unfold treat_postfix. simpl. rewrite H.
+  destruct (in_dict cs inst j) eqn:E; [exact E|]. unfold in_dict. apply orb_true_iff. right.
+  apply nth_set_nth_same. destruct (last_def_spec _ _ _ _ H) as (H1 & _). lia.
+Qed.
+
+Lemma init_subclass_length : forall cs inst k, length (init_subclass cs inst k) = length inst.
+Proof.
+  intros. unfold init_subclass. destruct (c_acc (nth k cs cls0) && existsb c_param (skipn k cs)); auto.
+  simpl. now rewrite !treat_postfix_length.
+Qed.
+
+Lemma fold_init_subclass_length : forall cs ks inst, length (fold_left (init_subclass cs) ks inst) = length inst.
+Proof. induction ks; simpl; intros; auto. now rewrite IHks, init_subclass_length. Qed.
+
+(* the module class is created last: its __init_subclass__ leaves a check_a in the __dict__ of the class that defines a
+   limit parameter first, for each of the three kinds of limit parameters *)
+Lemma install_length : forall cs, length (install cs) = length cs.
+Proof. intros. unfold install. now rewrite fold_init_subclass_length, repeat_length. Qed.
+
+Lemma install_in_dict : forall c r pf j, c_acc c = true -> existsb c_param (c :: r) = true ->
+  last_def pf (c :: r) 0 = Some j -> in_dict (c :: r) (install (c :: r)) j = true.
+Proof.
+  intros c r pf j Ha Hp Hd. unfold install.
+  change (length (c :: r)) with (S (length r)). change (seq 0 (S (length r))) with (0 :: seq 1 (length r)).
+  change (rev (0 :: seq 1 (length r))) with (rev (seq 1 (length r)) ++ [0]).
+  rewrite fold_left_app.
+  set (inst' := fold_left (init_subclass (c :: r)) (rev (seq 1 (length r))) (repeat false (S (length r)))).
+  assert (Hl : length inst' = length (c :: r)).
+  { unfold inst'. rewrite fold_init_subclass_length, repeat_length. reflexivity. }
+  change (fold_left (init_subclass (c :: r)) [0] inst') with (init_subclass (c :: r) inst' 0).
+  unfold init_subclass. change (nth 0 (c :: r) cls0) with c. change (skipn 0 (c :: r)) with (c :: r).
+  rewrite Ha, Hp.
+  change (fold_left (treat_postfix (c :: r) 0) [PLim; PMin; PMax] inst')
+    with (treat_postfix (c :: r) 0 (treat_postfix (c :: r) 0 (treat_postfix (c :: r) 0 inst' PLim) PMin) PMax).
+  destruct pf.
+  - apply treat_postfix_mono, treat_postfix_mono. now apply treat_postfix_installs.
+  - apply treat_postfix_mono. apply treat_postfix_installs; auto. now rewrite treat_postfix_length.
+  - apply treat_postfix_installs; auto. now rewrite !treat_postfix_length.
+Qed.
+
+(* every covered layout with a limit parameter: the chain of check functions contains one that tests the limits *)
+Lemma chain_tests_limits : forall L, layout_wf L -> has_limit L = true ->
+  exists ck, In ck (chain (l_classes L)) /\ calls_check_limits ck = true.
+Proof.
+  intros L ((c & r & Hc & Ha) & Hp & Hok) Hh. rewrite Hc in *.
+  assert (Hpf : exists pf, existsb (defines pf) (c :: r) = true).
+  { unfold has_limit, l_lim, l_min, l_max in Hh. rewrite Hc in Hh.
+    apply orb_true_iff in Hh. destruct Hh as [Hh|Hh]; [apply orb_true_iff in Hh; destruct Hh as [Hh|Hh]|].
+    - exists PLim. exact Hh.
+    - exists PMin. exact Hh.
+    - exists PMax. exact Hh. }
+  destruct Hpf as (pf & Hpf).
+  destruct (last_def_exists pf (c :: r) 0 Hpf) as (j & Hj).
+  pose proof (install_in_dict c r pf j Ha Hp Hj) as Hd.
+  destruct (last_def_spec _ _ _ _ Hj) as (Hr & Hdef). rewrite Nat.sub_0_r in Hdef. simpl plus in Hr.
+  assert (Hcj : cls_ok (nth j (c :: r) cls0) = true).
+  { rewrite forallb_forall in Hok. apply Hok. apply nth_In. simpl. lia. }
+  unfold chain.
+  assert (Hin : In j (seq 0 (length (c :: r)))) by (apply in_seq; simpl; lia).
+  unfold in_dict in Hd. unfold cls_ok in Hcj.
+  destruct (c_user (nth j (c :: r) cls0)) as [|[|u]] eqn:Eu.
+  - simpl in Hd. exists CkAuto. split; [|reflexivity].
+    apply in_flat_map. exists j. split; [exact Hin|]. unfold chain_at. rewrite Eu, Hd. now left.
+  - exfalso. simpl in Hcj. apply negb_true_iff in Hcj.
+    destruct pf; simpl in Hdef; rewrite Hdef in Hcj; simpl in Hcj; try discriminate;
+      rewrite ?orb_true_r in Hcj; discriminate.
+  - exists (CkUser (S (S u))). split; [|reflexivity].
+    apply in_flat_map. exists j. split; [exact Hin|]. unfold chain_at. rewrite Eu. now left.
+Qed.
+
+Local Open Scope Z_scope.
+
+Lemma pass_tests_limits : forall L s v ck, calls_check_limits ck = true -> pass L s v ck = true -> check_limits L s v = true.
+Proof.
+  intros L s v ck Hc Hp. destruct ck as [|[|[|u]]]; simpl in *; try discriminate; auto.
+  apply andb_prop in Hp. tauto.
+Qed.
+
+(* without limit parameters checkLimits lets everything pass *)
+Lemma check_limits_no_limit : forall L s v, has_limit L = false -> check_limits L s v = true.
+Proof.
+  intros L s v H. unfold has_limit in H. apply orb_false_iff in H. destruct H as (H & H3).
+  apply orb_false_iff in H. destruct H as (H1 & H2). unfold check_limits. rewrite H1, H2, H3. reflexivity.
+Qed.
+
+(* the write wrapper of a covered layout lets a value pass only if checkLimits accepts it *)
+Lemma run_checks_sound : forall L s v, layout_wf L -> run_checks L s v = true -> check_limits L s v = true.
+Proof.
+  intros L s v Hwf H. destruct (has_limit L) eqn:Eh.
+  - destruct (chain_tests_limits L Hwf Eh) as (ck & Hin & Hc).
+    unfold run_checks in H. rewrite forallb_forall in H. exact (pass_tests_limits L s v ck Hc (H ck Hin)).
+  - now apply check_limits_no_limit.
+Qed.
+
+(* ... and the verdict does not depend on the class layout at all: the checks pass exactly when checkLimits accepts the value
+   and - if the programmer wrote a check_a anywhere in the hierarchy - his plausibility test accepts it *)
+Definition any_user (L : layout) : bool := existsb (fun c => negb (Nat.eqb (c_user c) 0)) (l_classes L).
+
+Lemma chain_user_origin : forall cs k, In (CkUser k) (chain cs) ->
+  k <> 0%nat /\ existsb (fun c => negb (Nat.eqb (c_user c) 0)) cs = true.
+Proof.
+  intros cs k H. unfold chain in H. apply in_flat_map in H. destruct H as (j & Hj & H).
+  apply in_seq in Hj. unfold chain_at in H. destruct (c_user (nth j cs cls0)) eqn:Eu.
+  - destruct (nth j (install cs) false); simpl in H; [destruct H as [H|[]]; discriminate|destruct H].
+  - destruct H as [H|[]]. injection H as <-. split; [discriminate|].
+    apply existsb_exists. exists (nth j cs cls0). split; [apply nth_In; lia|]. now rewrite Eu.
+Qed.
+
+Lemma chain_user_present : forall cs, existsb (fun c => negb (Nat.eqb (c_user c) 0)) cs = true ->
+  exists k, In (CkUser (S k)) (chain cs).
+Proof.
+  intros cs H. apply existsb_exists in H. destruct H as (c & Hin & Hu).
+  destruct (In_nth cs c cls0 Hin) as (j & Hj & Hn).
+  destruct (c_user c) as [|k] eqn:Eu; [discriminate|]. exists k.
+  unfold chain. apply in_flat_map. exists j. split; [apply in_seq; lia|].
+  unfold chain_at. rewrite Hn, Eu. now left.
+Qed.
+
+Lemma run_checks_exact : forall L s v, layout_wf L ->
+  (run_checks L s v = true <-> check_limits L s v = true /\ (any_user L = true -> plausible v = true)).
+Proof.
+  intros L s v Hwf. split.
+  - intros H. split; [now apply run_checks_sound|]. intros Hu.
+    destruct (chain_user_present _ Hu) as (k & Hin).
+    unfold run_checks in H. rewrite forallb_forall in H. specialize (H _ Hin).
+    destruct k; simpl in H; auto. apply andb_prop in H. tauto.
+  - intros (Hc & Hu). unfold run_checks. apply forallb_forall. intros ck Hin.
+    destruct ck as [|k]; [exact Hc|].
+    destruct (chain_user_origin _ _ Hin) as (Hk & Ha). specialize (Hu Ha).
+    destruct k as [|[|k]]; simpl; auto. now rewrite Hu, Hc.
+Qed.
+
+Lemma write_accepted_within_all : forall L s v s' r, layout_wf L -> step L s (WriteA v) = (s', ROk r) ->
   within_all L s v /\ va s' = v /\ r = [v].
 Proof.
-  intros L s v s' r H. simpl in H.
+  intros L s v s' r Hwf H. simpl in H.
   destruct (in_base L v) eqn:Eb; simpl in H; [|discriminate].
-  destruct (check_limits L s v) eqn:Ec; [|discriminate].
+  destruct (run_checks L s v) eqn:Er; [|discriminate].
+  pose proof (run_checks_sound L s v Hwf Er) as Ec.
   injection H as <- <-. unfold in_base in Eb. apply andb_prop in Eb. destruct Eb as (B1 & B2).
   apply Z.leb_le in B1, B2. destruct (check_limits_sound L s v Ec) as (H1 & H2 & H3 & _).
   split; [|split; reflexivity]. unfold within_all. split; [lia|]. split; [exact H1|]. split; [exact H2|exact H3].
@@ -42,18 +239,28 @@ Qed.
 
 Lemma write_refused_unchanged : forall L s v s' c, step L s (WriteA v) = (s', RErr c) -> s' = s /\ c = 1%nat.
 Proof.
-  intros L s v s' c H. simpl in H. destruct (in_base L v && check_limits L s v); [discriminate|].
+  intros L s v s' c H. simpl in H. destruct (in_base L v && run_checks L s v); [discriminate|].
   injection H as <- <-. auto.
+Qed.
+
+Lemma write_verdict_layout_independent : forall L s v, layout_wf L ->
+  ((exists s', step L s (WriteA v) = (s', ROk [v])) <->
+   in_base L v = true /\ check_limits L s v = true /\ (any_user L = true -> plausible v = true)).
+Proof.
+  intros L s v Hwf. pose proof (run_checks_exact L s v Hwf) as Hx. simpl. split.
+  - intros (s' & H). destruct (in_base L v); simpl in H; [|discriminate].
+    destruct (run_checks L s v); [|discriminate]. split; [reflexivity|]. now apply Hx.
+  - intros (Hb & Hc & Hu). rewrite Hb. simpl. destruct Hx as (_ & Hx). rewrite (Hx (conj Hc Hu)). eauto.
 Qed.
 
 (* an inverted pair in force - the limits tuple or a_min > a_max, whatever else exists - refuses every write *)
 Definition inverted_in_force (L : layout) (s : state) : Prop :=
   (l_lim L = true /\ snd (vlim s) < fst (vlim s)) \/ (l_min L = true /\ l_max L = true /\ vmax s < vmin s).
 
-Lemma inverted_refuses_all : forall L s v, inverted_in_force L s -> step L s (WriteA v) = (s, RErr 1).
+Lemma inverted_refuses_all : forall L s v, layout_wf L -> inverted_in_force L s -> step L s (WriteA v) = (s, RErr 1).
 Proof.
-  intros L s v H. simpl. destruct (in_base L v && check_limits L s v) eqn:E; auto.
-  apply andb_prop in E. destruct E as (_ & Ec). destruct (check_limits_sound L s v Ec) as (H1 & _ & _ & Ho).
+  intros L s v Hwf H. simpl. destruct (in_base L v && run_checks L s v) eqn:E; auto.
+  apply andb_prop in E. destruct E as (_ & Er). pose proof (run_checks_sound L s v Hwf Er) as Ec. destruct (check_limits_sound L s v Ec) as (H1 & _ & _ & Ho).
   destruct H as [(Hl & Hlt) | (Hm & Hx & Hlt)].
   - specialize (H1 Hl). lia.
   - specialize (Ho Hm Hx). lia.
